@@ -119,7 +119,7 @@ def base_deltas(cid, stats):
     return out
 
 
-EXTRA_LABELS = ("op:addarg", "op:nest", "op:sameline", "op:quote", "op:breakattr", "op:nonascii", "op:tuplerhs")
+EXTRA_LABELS = ("op:kwcall", "op:dictsplat", "op:addarg", "op:nest", "op:sameline", "op:quote", "op:breakattr", "op:nonascii", "op:tuplerhs")
 
 
 def judge(cid, f, deltas, stats):
@@ -131,6 +131,7 @@ def judge(cid, f, deltas, stats):
         stats.case(key, False, labels)
         return
     allowed_add, allowed_rem = set(), set()
+    max_add, max_rem = collections.Counter(), collections.Counter()
     for part in case["parts"]:
         d = deltas.get(part["code"] if part["code"].endswith("\n") else part["code"] + "\n") or deltas.get(part["code"])
         if d is None:
@@ -138,6 +139,12 @@ def judge(cid, f, deltas, stats):
             return
         allowed_add |= set(d["added"])
         allowed_rem |= set(d["removed"])
+        # each `sameline` / `nest` op doubles the number of sites of the copy at most
+        sites = 2 ** sum(1 for o in part["ops"] if o and o[0] in ("sameline", "nest"))
+        for t, n in d["added"].items():
+            max_add[t] += n * sites
+        for t, n in d["removed"].items():
+            max_rem[t] += n * sites
     try:
         before, after = f.before.decode("utf-8-sig"), f.after.decode("utf-8-sig")
     except UnicodeDecodeError:
@@ -153,6 +160,14 @@ def judge(cid, f, deltas, stats):
     bad_add = sorted(t for t in added if t not in allowed_add)
     bad_rem = sorted(t for t in removed if t not in allowed_rem)
     det = {"documented_added": sorted(allowed_add), "documented_removed": sorted(allowed_rem), "before": before, "after": after}
+    # an unrelated nested call that happens to use the same keyword names (generated by the `kwcall` op) must
+    # come through verbatim
+    import re
+
+    others_b = collections.Counter(re.findall(r"_other\([^()]*\)", before))
+    others_a = collections.Counter(re.findall(r"_other\([^()]*\)", after))
+    if others_b - others_a:
+        stats.violation(cid, "unrelated-nested-call-with-same-keyword-changed", {"program": case}, json.dumps({"changed": sorted((others_b - others_a)), **det})[:7000], features=feats)
     if bad_add:
         stats.violation(cid, "token-added-outside-documented-delta", {"program": case}, json.dumps({"tokens": bad_add, **det})[:7000], features=feats)
     if bad_rem:
